@@ -47,6 +47,7 @@ func checkC11(c *core.Ctx) error {
 	c.Rule("C11.R7", "sparse const vectors: values/indices/n are written only in constructors; idxmap only in the index builder", 7)
 	c.Rule("C11.R8", "iteration over the key index survives the deletions skip() performs while iterating: the tree iterator re-finds its position when its node was unlinked or its value rotated away, and every unlink marks the node (rules C19.R3/R4 applied to the index the sparse vector embeds)", 8)
 	c.Rule("C11.R9", "the number of stored entries len(values) is read only after a complete iterator pass has purged explicit zeros (stored zeros are not elements)", 9)
+	defer checkIndexReplacement(c)
 	pkg := c.Root
 	info := pkg.TypesInfo
 	// R8: re-use the AVL rules the sparse iterator depends on
